@@ -1391,6 +1391,8 @@ pub fn execute(h: &History, mode: Mode, ctx: &mut Ctx) -> Verdict {
         ElemKind::Zs => run::<Zs>(h, mode, ctx),
         ElemKind::U128 => run::<u128>(h, mode, ctx),
         ElemKind::B3 => run::<crate::elem::B3>(h, mode, ctx),
+        ElemKind::Nd => run::<crate::elem::Nd>(h, mode, ctx),
+        ElemKind::W40 => run::<crate::elem::W40>(h, mode, ctx),
     }
 }
 
